@@ -49,6 +49,7 @@ func runC08(r *engine.Run) {
 	r.Rule("DOM-recheck", "the lock-free ancestor walk of StateCache.Get never overwrites an entry of the queried block: it memoises with an add-if-absent operation (no plain Add on the per-key map), and a lookup of the queried block's own entry that can only execute after the link lookup dominates the memoisation (a commit publishes a block's link after its keys, so an entry written meanwhile is seen by that re-check)")
 	r.Rule("ORDER-publish", "in StateCache.commit the block's ancestor link is published (commitRound) only after the loop that writes the block's keys: no per-key write is reachable after the publication, and the publication is not inside the loop")
 	r.Rule("DOM-tombstone", "see C06: the data handed out is the data of the very entry whose deleted flag tested false - no rewrite of the entry (e.g. the substitution of the queried block's own entry found by the re-check) lies between the flag test and the read of the data")
+	r.Rule("LOCK-reentrant", "see C16: no Lock or RLock of a mutex is reachable while the same goroutine already holds that mutex of the same object: held-on-receiver facts (must-lockset inside a function) are carried into callees only along calls made on the same receiver value, over every call chain; sync mutexes are not reentrant (a second RLock deadlocks as soon as a writer queues up between the two)")
 	r.Rule("PAIR-unlock", "every Lock/RLock of a mutex is followed on every path to a return of the acquiring function by the matching Unlock/RUnlock on the same mutex or by a deferred one registered on the path: no operation returns with the lock held (every later operation on the object would block)")
 	r.NotDec = append(r.NotDec, "that every interleaving of the lock-free StateCache.Get with a commit yields the block-tree-determined value (needs exploration of interleavings)")
 	const rule = "LOCK-statecache"
@@ -91,6 +92,7 @@ func runC08(r *engine.Run) {
 	domRecheck(r, "DOM-recheck")
 	domTombstone(r)
 	pairUnlock(r, "PAIR-unlock", funcsOfPkg(r, pkgSC), 4)
+	lockReentrant(r, "LOCK-reentrant", funcsOfPkg(r, pkgSC), 8)
 }
 
 func orderPublish(r *engine.Run, commit *ssa.Function) {
